@@ -56,8 +56,9 @@ def main(argv):
             print(f"  {name}: evals={s['evaluations']} nt={s['distinct_nontrivial']} wall={s['wall_s']}s "
                   f"{'TIMEBOX ' if s.get('stopped_by_wall_clock_budget') else ''}labels={dict(list(s['labels'].items())[:12])}")
     if harness:
-        for h in harness[:5]:
-            print('HARNESS ERROR: ' + h, file=sys.stderr)
+        for h in harness[:2]:
+            print('HARNESS ERROR: ' + h[-1500:], file=sys.stderr)
+        print(f'({len(harness)} harness error(s) in total)', file=sys.stderr)
         return 2
     return 1 if violations else 0
 
